@@ -83,6 +83,62 @@ func opExpr(s Step) (e *Expr, needA, needB string, derives bool) {
 		return MCall(a, "size"), "list", "", false
 	case "sum":
 		return MCall(a, "sum"), "ilist", "", false
+	// observers of one or two handles (nothing is derived): an operation never changes its operands
+	case "containsAll":
+		return Bin("~", a, b), "list", "list", false
+	case "containsItem":
+		return Bin("~", v, a), "list", "", false
+	case "equalTo":
+		return Bin("=", a, b), "any", "any", false
+	case "string":
+		return MCall(a, "string"), "any", "", false
+	case "last":
+		return MCall(a, "last"), "list", "", false
+	case "minMax":
+		return MCall(a, "minMax", lam1(Var("e"))), "ilist", "", false
+	case "max":
+		return MCall(a, "max"), "ilist", "", false
+	case "mean":
+		return MCall(a, "mean"), "ilist", "", false
+	case "reduce":
+		return MCall(a, "reduce", Lam([]string{"x", "y"}, Bin("+", Var("x"), Var("y")))), "ilist", "", false
+	case "mapReduce":
+		return MCall(a, "mapReduce", v, Lam([]string{"x", "y"}, Bin("-", Var("x"), Var("y")))), "ilist", "", false
+	case "indexWhere":
+		return MCall(a, "indexWhere", lam1(Bin(">", Var("e"), v))), "ilist", "", false
+	case "present":
+		return MCall(a, "present", lam1(Bin("=", Var("e"), v))), "ilist", "", false
+	case "visit":
+		return MCall(a, "visit", List(), Lam([]string{"l", "e"}, MCall(Var("l"), "append", Var("e")))), "list", "", false
+	// more derivations
+	case "orderRev":
+		return MCall(a, "orderRev", lam1(Var("e"))), "ilist", "", true
+	case "orderLess":
+		return MCall(a, "orderLess", Lam([]string{"x", "y"}, Bin("<", Var("x"), Var("y")))), "ilist", "", true
+	case "combine":
+		return MCall(a, "combine", Lam([]string{"x", "y"}, List(Var("x"), Var("y")))), "list", "", true
+	case "combine3":
+		return MCall(a, "combine3", Lam([]string{"x", "y", "z"}, List(Var("x"), Var("y"), Var("z")))), "list", "", true
+	case "compact":
+		return MCall(a, "compact", Lam([]string{"x", "y"}, Bin("=", Var("x"), Var("y")))), "ilist", "", true
+	case "cross":
+		return MCall(a, "cross", b, Lam([]string{"x", "y"}, List(Var("x"), Var("y")))), "list", "list", true
+	case "merge":
+		return MCall(a, "merge", b, Lam([]string{"x", "y"}, Bin("<", Var("x"), Var("y")))), "ilist", "ilist", true
+	case "iir":
+		return MCall(a, "iir", lam1(Var("e")), Lam([]string{"e", "l"}, Bin("+", Var("e"), Var("l")))), "ilist", "", true
+	case "uniqueInt":
+		return MCall(a, "uniqueInt", lam1(Var("e"))), "ilist", "", true
+	case "groupByInt":
+		return MCall(a, "groupByInt", lam1(Bin("%", Var("e"), Int(2)))), "ilist", "", true
+	case "replaceList":
+		return MCall(a, "replaceList", Lam([]string{"l"}, MCall(Var("l"), "append", v))), "list", "", true
+	case "mapCombine":
+		return MCall(a, "combine", a, Lam([]string{"x", "y"}, List(Var("x"), Var("y")))), "map", "", true
+	case "mapAccept":
+		return MCall(a, "accept", Lam([]string{"k", "x"}, Bin("!=", Var("k"), Str(fmt.Sprintf("k%d", s.N%4))))), "map", "", true
+	case "mapGet":
+		return MCall(a, "get", Str(fmt.Sprintf("k%d", s.N%4))), "map", "", false
 	case "put":
 		return MCall(a, "put", Str(fmt.Sprintf("k%d", s.N%4)), v), "map", "", true
 	case "replace":
@@ -100,7 +156,9 @@ func opExpr(s Step) (e *Expr, needA, needB string, derives bool) {
 }
 
 var listOps = []string{"append", "append", "append", "appendList", "set", "reverse", "order", "plus", "top", "skip", "map", "accept", "eval", "combineN",
-	"combineNeval", "iirAppend", "number", "first", "size", "sum", "put", "replace", "mapPlus", "mapEval", "mapList", "mapMap"}
+	"combineNeval", "iirAppend", "number", "first", "size", "sum", "put", "replace", "mapPlus", "mapEval", "mapList", "mapMap",
+	"containsAll", "containsAll", "containsItem", "equalTo", "string", "last", "minMax", "max", "mean", "reduce", "mapReduce", "indexWhere", "present", "visit",
+	"orderRev", "orderLess", "combine", "combine3", "compact", "cross", "merge", "iir", "uniqueInt", "groupByInt", "replaceList", "mapCombine", "mapAccept", "mapGet"}
 
 func kindOf(v ref.Value) string {
 	switch x := v.(type) {
@@ -329,7 +387,9 @@ func check(c Case) (string, info) {
 				}
 			}
 		} else if werr == nil {
-			if !ref.Same(want, progs.Observe(gv, nil).Val, 0) {
+			if mm, ok := ms[ia].(*ref.Map); s.Op == "string" && (hasUnorderedMap(ms[ia]) || (ok && mm.Unordered)) {
+				// the key order of such a map is not specified
+			} else if !ref.Same(want, progs.Observe(gv, nil).Val, 0) {
 				return fmt.Sprintf("%s = %v, want %s", when, progs.Observe(gv, nil), ref.Show(want)), inf
 			}
 			inf.classes["partial_consumption_or_observation"] = true
